@@ -225,3 +225,33 @@ def write_evidence(pid, tier, seed, mod, jobs, results, wall, nviol, nknown):
     evdir = os.environ.get("VERIF_EVIDENCE_DIR") or os.path.join(VERIF, "evidence")
     os.makedirs(evdir, exist_ok=True)
     json.dump(ev, open(os.path.join(evdir, pid + ".json"), "w"), indent=1, default=str)
+
+
+def global_snapshot(modules, classes=()):
+    """repr of the library's module-level and class-level mutable state (dicts, lists, sets and the
+    set of attribute names): used to assert that an operation leaves global state unchanged and that
+    nothing is cached on a class between calls"""
+    out = []
+    for mod in modules:
+        for k, v in sorted(vars(mod).items()):
+            if k.startswith("__"):
+                continue
+            if isinstance(v, (dict, list, set)):
+                out.append((mod.__name__, k, repr(v)))
+            elif isinstance(v, type) and getattr(v, "__module__", None) == mod.__name__:
+                classes = tuple(classes) + (v,)
+    seen = set()
+    for c in classes:
+        if c in seen:
+            continue
+        seen.add(c)
+        names = sorted(k for k in vars(c) if not k.startswith("__"))
+        out.append((c.__module__, c.__name__, "attrs", tuple(names)))
+        for k in names:
+            v = vars(c)[k]
+            if isinstance(v, (dict, list, set)):
+                try:
+                    out.append((c.__module__, c.__name__, k, repr(sorted(v.items(), key=repr)) if isinstance(v, dict) else repr(v)))
+                except Exception:
+                    out.append((c.__module__, c.__name__, k, "unrepr"))
+    return out
